@@ -169,4 +169,38 @@ theorem steps_range' {h : ℝ} (g : Nat → ℝ) (b : ℝ) (hg : ∀ i, g i ≤ 
       rw [List.range'_succ, List.map_cons, List.cons_append] at ih ⊢
       exact ⟨(hg s).1, (hg s).2, ih⟩
 
+/-! ### round 6d: reversed polylines (descending parameters) -/
+
+theorem polyLenR_append {α : Type} (d : α → α → ℝ) : ∀ (l1 : List α) (x : α) (l2 : List α),
+    polyLenR d (l1 ++ x :: l2) = polyLenR d (l1 ++ [x]) + polyLenR d (x :: l2)
+  | [], x, l2 => by simp [polyLenR]
+  | [p], x, l2 => by simp [polyLenR]
+  | p :: q :: l1, x, l2 => by
+      have := polyLenR_append d (q :: l1) x l2
+      simp only [List.cons_append, polyLenR] at this ⊢
+      linarith
+
+theorem polyLenR_snoc {α : Type} (d : α → α → ℝ) (l : List α) (x y : α) :
+    polyLenR d (l ++ [x, y]) = polyLenR d (l ++ [x]) + d x y := by
+  have := polyLenR_append d l x [y]
+  simp only [polyLenR] at this
+  linarith
+
+theorem polyLenR_reverse {α : Type} (d : α → α → ℝ) (hsym : ∀ x y, d x y = d y x) :
+    ∀ l : List α, polyLenR d l.reverse = polyLenR d l
+  | [] => rfl
+  | [_] => rfl
+  | p :: q :: rest => by
+      have ih := polyLenR_reverse d hsym (q :: rest)
+      have : (p :: q :: rest).reverse = rest.reverse ++ [q, p] := by simp
+      rw [this, polyLenR_snoc]
+      have h2 : rest.reverse ++ [q] = (q :: rest).reverse := by simp
+      rw [h2, ih, hsym q p]
+      simp only [polyLenR]; ring
+
+theorem distR_symm (p q : Vec ℝ) : distR p q = distR q p := by
+  unfold distR
+  congr 1
+  simp only [nsq, dot, sub]; ring
+
 end CBV.C16
